@@ -443,10 +443,12 @@ func runDerive(c *Ctx, dsPath string, params parameters.Map, kind, variant strin
 	c.Op("endload-raw", "ok")
 	if wf {
 		c.Op("endderive", "wf=1 match")
-		// the catchment driver evaluates InitConsistent / KeysDistinct on the EXTRACTED data and
+		// the catchment driver evaluates ApproxConsistent on the EXTRACTED data (then, on the `hyp` lines, the exact
+		// InitConsistent on the normalised data, KeysDistinct and UnitsOK) and
 		// answers with the initial state of the model run on it (BOUNDARY: an initial value within
 		// 1e-9 of a rounding boundary cannot be decided at float precision; the rest is skipped)
 		c.Op("endload", cm.dump())
+		emitHypLines(c)
 	} else {
 		c.Op("endderive-malformed", "wf=0 match")
 	}
